@@ -17,9 +17,11 @@ corr       : the REAL tcpcl.session.ContactHandler (recv_raw â†’ recv_message â†
                        any position, IPv4/IPv6/network entries, no-extension / empty / foreign-only SAN),
                        every flags octet, SSLError subclasses, random free-form SAN lists.
 monitors   : written from the property text, independent of the model; run on every case.
-unpatched  : /repo runs unmodified. On an interpreter without ssl.match_hostname (defect D27) every TLS session
-             dies in merge_session_params; VERIF_C15_SHIM=1 (exploration only, off by default, recorded in the
-             evidence and in every replay) installs a do-nothing ssl.match_hostname for an additional pass.
+regression : six former defects of this code are repaired in /repo (D27 ssl.match_hostname, D13 uncompared DNS-ID,
+             peer without certificate, plaintext SESS_INIT carried across the handshake, OSError in the handshake,
+             messages handled after close). Their witnesses are replayed on every run and all monitors stay armed;
+             on a model/implementation disagreement the model is asked again with each former-defect switch of
+             `Quirks` on, so that a regression is named.
 '''
 import ipaddress
 import json
@@ -37,11 +39,13 @@ FOREIGN_IP = ['192.0.2.99', '198.51.100.7', '2001:db8::99', '::ffff:192.0.2.1', 
 FOREIGN_NET = [bytes([192, 0, 2, 0, 255, 255, 255, 0]).hex()]         # iPAddress of 8 octets: a network
 FOREIGN_DNS = ['evil.example.net', 'PEER.example.org', '*.example.org', 'peer.example.org.', 'example.org', 'xn--peer-9na.example.org']
 FOREIGN_URI = ['dtn://other/', 'dtn://peer', 'DTN://peer/', 'ipn:1.0', 'dtn://peer/x', 'https://peer.example.org/']
-# developer switch (patch trials on a scratch copy of the repository, VERIF_REPO=...): compare against another
-# quirk set of the model than Quirks.current, e.g. VERIF_C15_QUIRKS=repaired. Recorded in the evidence.
-QUIRKS = os.environ.get('VERIF_C15_QUIRKS') or None
-if QUIRKS and QUIRKS.startswith('{'):
-    QUIRKS = json.loads(QUIRKS)
+# former-defect switches of Model/TlsPolicy.lean `Quirks` (all off = the code under verification)
+QUIRK_NAMES = {'calls_native': 'D27: ssl.match_hostname called (missing in Python >= 3.12)',
+               'unchecked_dns_counts': 'D13: an uncompared DNS-ID satisfies require_host_authn',
+               'carries_plaintext': 'octets received before the TLS handshake are processed after it',
+               'no_cert_raises': 'peer without certificate raises TypeError',
+               'handshake_os_escapes': 'non-SSL OSError in the handshake escapes',
+               'handles_after_close': 'messages still handled after close()'}
 HS_MODEL = {'ok': 'ok', 'sslerror': 'sslerror', 'certerror': 'sslerror', 'eof': 'sslerror', 'reset': 'oserror'}
 
 
@@ -170,7 +174,7 @@ def free_scenario(rng):
 
 
 # ------------------------------------------------------------------------------------------ model request / canonical forms
-def model_request(sc, native):
+def model_request(sc, native, quirks=None):
     cert = sc.get('cert')
     if cert is None:
         cj = None
@@ -186,8 +190,8 @@ def model_request(sc, native):
                     'native': bool(native)},
             'conn': {'peer_name': sc['peer_name'], 'sock_addr': sc['sock_peer'], 'sock_octets': T.ip_bytes(sc['sock_peer']).hex(),
                      'node': sc['peer_node'], 'cert': cj}}
-    if QUIRKS is not None:
-        req['quirks'] = QUIRKS
+    if quirks is not None:
+        req['quirks'] = quirks
     return req
 
 
@@ -346,7 +350,7 @@ def monitors(chk, sc, obs, replay):
             ctx = 'in-handshake'
         else:
             ctx = 'on-sess-init'
-        what = {'AttributeError-on-sess-init': 'ssl.match_hostname does not exist in this interpreter (Python >= 3.12): every TLS session dies in merge_session_params (D27)',
+        what = {'AttributeError-on-sess-init': 'AttributeError in merge_session_params (regression of D27: ssl.match_hostname does not exist in Python >= 3.12?)',
                 'TypeError-on-sess-init': 'peer presented no certificate: load_der_x509_certificate(None) raises instead of treating every identifier as absent',
                 'AttributeError-after-close': 'recv_raw goes on with buffered octets after close(): SESS_INIT handled on a torn-down connection',
                 }.get('%s-%s' % (e, ctx), 'exception leaves the receive callback; the endpoint neither establishes, terminates nor closes')
@@ -356,14 +360,13 @@ def monitors(chk, sc, obs, replay):
 
 # ------------------------------------------------------------------------------------------ running
 class Batch(object):
-    def __init__(self, chk, shim):
+    def __init__(self, chk):
         self.chk = chk
-        self.shim = shim
-        self.native = T.native_available() or shim
+        self.native = T.native_available()
         self.recs = []
 
     def add(self, sc, tag, probe=False):
-        obs = T.run_scenario(sc, shim=self.shim, probe_transfer=probe)
+        obs = T.run_scenario(sc, probe_transfer=probe)
         self.recs.append((sc, tag, obs))
 
     def flush(self):
@@ -371,11 +374,12 @@ class Batch(object):
         if not self.recs:
             return
         answers = chk.driver([model_request(sc, self.native) for (sc, _t, _o) in self.recs])
+        broken = []
         for (sc, tag, obs), ans in zip(self.recs, answers):
-            replay = {'scenario': sc, 'shim_match_hostname': self.shim, 'observed': obs, 'tag': tag}
+            replay = {'scenario': sc, 'observed': obs, 'tag': tag}
             impl = canon_impl(sc, obs)
             model = {k: ans.get(k) for k in CMP_KEYS}
-            chk.case({'sc': sc, 'shim': self.shim}, nontrivial=True,
+            chk.case({'sc': sc}, nontrivial=True,
                      sample=(tag == 'session' and obs['state'] == 'established' and obs['is_secure']))
             chk.count('tier-part:%s' % tag)
             chk.count('contact:%s' % ans.get('contact'))
@@ -384,8 +388,7 @@ class Batch(object):
             if 'error' in ans:
                 chk.corr_break('model driver error: %s' % ans['error'], replay)
             elif impl != model:
-                diff = {k: {'impl': impl[k], 'model': model[k]} for k in CMP_KEYS if impl[k] != model[k]}
-                chk.corr_break('negotiation outcome differs from the model: %s' % json.dumps(diff), dict(replay, model=ans))
+                broken.append((sc, impl, model, dict(replay, model=ans)))
                 chk.count('corr-break')
             else:
                 chk.cov['traces_validated_against_impl'] += 1
@@ -397,6 +400,19 @@ class Batch(object):
             if obs.get('transfer_accepted') and obs['state'] == 'ending':
                 chk.count('transfer-accepted-after-contact-failure')
             monitors(chk, sc, obs, replay)
+        # name a regression: does the implementation behave like the model with one former defect switched on?
+        for (sc, impl, model, replay) in broken[:40]:
+            names = list(QUIRK_NAMES)
+            alts = chk.driver([model_request(sc, self.native, quirks={q: True}) for q in names])
+            like = [q for q, a in zip(names, alts) if {k: a.get(k) for k in CMP_KEYS} == impl]
+            diff = {k: {'impl': impl[k], 'model': model[k]} for k in CMP_KEYS if impl[k] != model[k]}
+            what = 'negotiation outcome differs from the model: %s' % json.dumps(diff)
+            if like:
+                what += ' -- behaves like the former defect: ' + '; '.join(QUIRK_NAMES[q] for q in like)
+                chk.count('regression-like:%s' % like[0])
+            chk.corr_break(what, replay)
+        for (sc, impl, model, replay) in broken[40:]:
+            chk.corr_break('negotiation outcome differs from the model', replay)
         self.recs = []
 
 
@@ -438,7 +454,8 @@ def match_id_unit(chk, n):
             chk.cov['traces_validated_against_impl'] += 1
 
 
-# witnesses of the `â€¦_counterexample` theorems of Props/C15.lean (same constants), replayed on the implementation
+# witnesses of the six former defects (same constants as the regression `example`s of Props/C15.lean), replayed on the
+# implementation on every run; the monitors decide
 WITNESSES = [
     ('D13-passive-dns-only', dict(passive=True, tls_enable=True, require_tls=True, require_host=True, require_node=False,
                                   peer_flags=1, handshake='ok', pipelined=False, peer_name='192.0.2.1', sock_peer='192.0.2.1',
@@ -472,10 +489,10 @@ def config_defaults(chk):
         chk.corr_break('Config defaults changed: %s' % json.dumps(got), got)
 
 
-def one_pass(chk, shim):
+def one_pass(chk):
     rng = chk.rng
     thorough = chk.tier != 'quick'
-    b = Batch(chk, shim)
+    b = Batch(chk)
     for name, sc in WITNESSES:
         b.add(dict(sc), 'witness:' + name, probe=True)
     for row in contact_rows():
@@ -506,26 +523,18 @@ def one_pass(chk, shim):
 
 def run(chk):
     chk.prove('DtnVerif.Props.C15')
-    shim = os.environ.get('VERIF_C15_SHIM') == '1'
     chk.cov['rule'] = ('full abstract decision table (config x contact flags x handshake x pipelining; for TLS sessions: certificate none / '
                        'no SAN / {absent,matched,mismatch}^3 x DNS name known) on the real ContactHandler with a fake ssl context and real DER '
-                       'certificates || tls.negotiate; match_id on random SAN lists || tls.match; property monitors on every case')
+                       'certificates || tls.negotiate; match_id on random SAN lists || tls.match; property monitors on every case; '
+                       'witnesses of the six repaired defects replayed')
     chk.assumptions += [
         'TLS handshake, chain validation and the ssl module are parameters: a fake ssl context scripts the handshake result and returns the generated certificate from getpeercert(True)',
         'ipaddress.ip_address parsing of getpeername()[0] is not modelled (the model receives the packed address)',
         'peer names are non-empty; node IDs are valid UTF-8; the OtherName (NODE-ID as otherName) branch of match_id is not reachable from merge_session_params and not exercised',
-        'GLib stub accepts io_add_watch on a None socket (only matters for octets handled after close)',
-        'ssl.match_hostname available in this interpreter: %s; shim pass: %s' % (T.native_available(), shim),
     ]
-    if QUIRKS is not None:
-        chk.notes.append('VERIF_C15_QUIRKS=%s: correspondence against a quirk set other than Quirks.current (developer trial)' % json.dumps(QUIRKS))
     config_defaults(chk)
-    one_pass(chk, shim=False)
+    one_pass(chk)
     match_id_unit(chk, 400 if chk.tier == 'quick' else 20000)
-    if shim:
-        chk.notes.append('VERIF_C15_SHIM=1: additional exploration pass with a do-nothing ssl.match_hostname installed by the harness '
-                         '(replays from it carry shim_match_hostname=true)')
-        one_pass(chk, shim=True)
     n = chk.cov['distribution'].get('transfer-accepted-after-contact-failure', 0)
     if n:
         chk.notes.append('%d cases: after SESS_TERM(contact failure) the endpoint still accepted a new transfer from the unauthenticated peer '
@@ -536,10 +545,8 @@ def replay(chk, path):
     obj = json.load(open(path))
     r = obj.get('replay', obj)
     sc = r['scenario']
-    shim = bool(r.get('shim_match_hostname'))
-    obs = T.run_scenario(sc, shim=shim, probe_transfer=True)
+    obs = T.run_scenario(sc, probe_transfer=True)
     print('scenario :', json.dumps(sc, default=str))
-    print('shim     :', shim)
     print('recorded :', json.dumps(canon_impl(sc, r['observed'])) if 'observed' in r else None)
     print('now      :', json.dumps(canon_impl(sc, obs)))
     hits = monitors(chk, sc, obs, r)
